@@ -3,6 +3,7 @@ PROPERTY_GROUPS = {
     'C01': ['rep'],
     'C02': ['rep'],
     'C06': ['rep'],
+    'C08': ['timing'],
     'C13': ['httprange'],
     'C14': ['events'],
     'C19': ['dt'],
